@@ -252,7 +252,7 @@ def runTicks (c : Coll) : Nat → Coll
   | n+1 => runTicks c.tick n
 
 /-- execute one operation; `impl` is the implementation's result text -/
-def DState.exec (d : DState) (op : String) (args : List String) (impl : String) : Option (DState × Reply) :=
+def DState.exec1 (d : DState) (op : String) (args : List String) (impl : String) : Option (DState × Reply) :=
   let E := d.env
   match op, args with
   | "open", _ => do
@@ -392,6 +392,18 @@ def DState.exec (d : DState) (op : String) (args : List String) (impl : String) 
         | none => false
       | _ => false
     pure (d', { txt := txt, agree := some agree })
+  | "expects", [sid, n] => do
+    let sid ← sid.toNat?
+    let n ← n.toNat?
+    let s ← d.getS sid
+    let s' := s.expects false n
+    pure (d.setS sid s', { txt := printErrOpt s'.err })
+  | "expects0", [sid, n] => do
+    let sid ← sid.toNat?
+    let n ← n.toNat?
+    let s ← d.getS sid
+    let s' := s.expects true n
+    pure (d.setS sid s', { txt := printErrOpt s'.err })
   | "one", [sid] => do
     let sid ← sid.toNat?
     let s ← d.getS sid
@@ -526,6 +538,16 @@ def DState.exec (d : DState) (op : String) (args : List String) (impl : String) 
       | some o => o.print
       | none => "-" })
   | _, _ => none
+
+
+/-- `AssignUnique` is `ExpectsZeroOrN(1)` followed by `AssignOne` -/
+def DState.exec (d : DState) (op : String) (args : List String) (impl : String) : Option (DState × Reply) :=
+  match op, args with
+  | "uniq", [sid] =>
+    match sid.toNat?.bind d.getS, sid.toNat? with
+    | some s, some n => (d.setS n (s.expects true 1)).exec1 "one" args impl
+    | _, _ => none
+  | _, _ => d.exec1 op args impl
 
 /-- process one trace line; returns the new state and the verdict line -/
 def DState.line (d : DState) (line : String) : DState × String :=
